@@ -95,7 +95,13 @@ def verify(sid, checks=None, tier="quick"):
             res[f"{p}:{tier}"] = dict(rc=rc, caught=(rc == 1), wall_s=round(time.time() - t0, 1), lines=[l[:300] for l in lines[:6]])
             ran.append(f"VERIF_REPO=<scratch with change> ./run.py {p} --tier {tier} -> rc {rc}")
         meta["what_was_run"] = ran
-        meta["verified"] = bool(meta.get("suite_passes_with_change") and meta.get("demo_fails_with_change") and meta.get("demo_passes_without_change"))
+        if os.path.exists(demo):
+            meta["verified"] = bool(meta.get("suite_passes_with_change") and meta.get("demo_fails_with_change") and meta.get("demo_passes_without_change"))
+        else:
+            # hand-written change without a separate demonstration: the suite must pass; the property break is
+            # argued in meta["needs"] and demonstrated by the check's own replay file
+            meta["verified"] = bool(meta.get("suite_passes_with_change"))
+            meta["no_demo"] = True
         return meta
     finally:
         shutil.rmtree(s, ignore_errors=True)
